@@ -87,9 +87,9 @@ type analysis struct {
 	// younger branch resolves first and commits speculative state
 	shadowBranchSlow bool
 	// a slow taken branch whose wrong path writes a register that has an
-	// uncommitted older write (written since the previous taken conditional branch)
+	// uncommitted older write (conservatively: written anywhere earlier in the run)
 	shadowWawUncommitted bool
-	memConflict     bool // same-line conflicting accesses without a drain in between
+	memConflict          bool // same-line conflicting accesses without a drain in between
 }
 
 const shadowDepth = 24
@@ -103,7 +103,11 @@ const shadowDepth = 24
 // results per cycle, so the third execute unit starves whenever the first two
 // deliver in the same cycle — which happens once a multi-cycle instruction (a
 // load) has let a backlog build up; there every instruction after a load (until
-// the next drain) counts as slow.
+// the next drain) counts as slow. prefSlow selects the MVP-7.1/8 notion: the
+// control unit assigns loads and stores to the core that holds the line and a
+// unit picks the first instruction it may take, so a memory instruction can
+// wait on the bus for its (busy) core while younger instructions overtake it:
+// there every store reads its registers late, like a load.
 //
 // "slow" instruction: a load, or an instruction reading a register whose value
 // is load-tainted (written by a slow instruction). Such an instruction can
@@ -112,7 +116,7 @@ const shadowDepth = 24
 //
 // "drain": a taken conditional branch. On MVP-6.1 and later the misprediction
 // completes every older instruction before the redirect.
-func analyse(c *gen.Case, r *ref.Result, storeSlow, loadSlow bool) *analysis {
+func analyse(c *gen.Case, r *ref.Result, storeSlow, loadSlow, prefSlow bool) *analysis {
 	a := &analysis{c: c, r: r}
 	tr := r.Trace
 	// --- F01
@@ -224,7 +228,7 @@ func analyse(c *gen.Case, r *ref.Result, storeSlow, loadSlow bool) *analysis {
 		for _, x := range s.Reads {
 			if x != 0 {
 				readSince[x] = true
-				if isSlow {
+				if isSlow || (prefSlow && s.Store) {
 					slowReaders[x] = true
 				}
 			}
@@ -250,11 +254,11 @@ func analyse(c *gen.Case, r *ref.Result, storeSlow, loadSlow bool) *analysis {
 			sinceBr[s.Rd] = true
 		}
 		if s.CondBr && s.Taken {
-			// Only a taken branch (rollback) leaves the transaction map surely
-			// clean: a not-taken branch commits what has arrived, and a write
-			// issued just before it may arrive later.
+			// No point of the run leaves the transaction map surely clean: a
+			// branch commits or rolls back what has arrived, and a write issued just
+			// before it arrives later. So every register written earlier in the run
+			// may have an uncommitted write.
 			brUncommitted[i] = sinceBr
-			sinceBr = [32]bool{}
 		}
 		if s.CondBr && s.Taken {
 			// the registers slow in-flight instructions (the branch included) still
@@ -385,7 +389,7 @@ func knownFindings() *findings.File {
 // analysisCache avoids recomputing the analysis for every configuration.
 type analysisCache struct {
 	c *gen.Case
-	a [2][2]*analysis // [MVP-6.x notion of slow][parallelism >= 3 notion of slow]
+	a map[[3]bool]*analysis // keyed by the notion of slow of the configuration
 }
 
 var lastAnalysis analysisCache
@@ -398,19 +402,14 @@ func excludedBy(prop string, c *gen.Case, r *ref.Result, cfg sim.Config) string 
 		return ""
 	}
 	if lastAnalysis.c != c {
-		lastAnalysis = analysisCache{c: c}
+		lastAnalysis = analysisCache{c: c, a: map[[3]bool]*analysis{}}
 	}
-	i6, i3 := 0, 0
-	if is6(cfg.Variant) {
-		i6 = 1
+	key := [3]bool{is6(cfg.Variant), cfg.Par >= 3, cfg.Variant == "mvp7-1" || cfg.Variant == "mvp8-0"}
+	a := lastAnalysis.a[key]
+	if a == nil {
+		a = analyse(c, r, key[0], key[1], key[2])
+		lastAnalysis.a[key] = a
 	}
-	if cfg.Par >= 3 {
-		i3 = 1
-	}
-	if lastAnalysis.a[i6][i3] == nil {
-		lastAnalysis.a[i6][i3] = analyse(c, r, i6 == 1, i3 == 1)
-	}
-	a := lastAnalysis.a[i6][i3]
 	for _, tr := range triggers {
 		fd, ok := f.Active(tr.name)
 		if !ok {
